@@ -6,6 +6,7 @@
 
 #pragma once
 #include <stdint.h> // for uint32_t and uint64_t
+#include <string.h> // for memcpy
 
 /// XXHash (64 bit), based on Yann Collet's descriptions, see http://cyan4973.github.io/xxHash/
 /** How to use:
@@ -127,12 +128,12 @@ public:
 
     // at least 8 bytes left ? => eat 8 bytes per step
     for (; data + 8 <= stop; data += 8)
-      result = rotateLeft(result ^ processSingle(0, *(uint64_t*)data), 27) * Prime1 + Prime4;
+      result = rotateLeft(result ^ processSingle(0, read64(data)), 27) * Prime1 + Prime4;
 
     // 4 bytes left ? => eat those
     if (data + 4 <= stop)
     {
-      result = rotateLeft(result ^ (*(uint32_t*)data) * Prime1,   23) * Prime2 + Prime3;
+      result = rotateLeft(result ^ read32(data) * Prime1,   23) * Prime2 + Prime3;
       data  += 4;
     }
 
@@ -193,10 +194,27 @@ private:
   /// process a block of 4x4 bytes, this is the main part of the XXHash32 algorithm
   static inline void process(const void* data, uint64_t& state0, uint64_t& state1, uint64_t& state2, uint64_t& state3)
   {
-    const uint64_t* block = (const uint64_t*) data;
-    state0 = processSingle(state0, block[0]);
-    state1 = processSingle(state1, block[1]);
-    state2 = processSingle(state2, block[2]);
-    state3 = processSingle(state3, block[3]);
+    // the input may have any alignment: read through memcpy instead of dereferencing a uint64_t*
+    const unsigned char* block = static_cast<const unsigned char*>(data);
+    state0 = processSingle(state0, read64(block));
+    state1 = processSingle(state1, read64(block + 8));
+    state2 = processSingle(state2, read64(block + 16));
+    state3 = processSingle(state3, read64(block + 24));
+  }
+
+  /// read a 64 bit value from a possibly misaligned address
+  static inline uint64_t read64(const unsigned char* ptr)
+  {
+    uint64_t value;
+    memcpy(&value, ptr, sizeof(value));
+    return value;
+  }
+
+  /// read a 32 bit value from a possibly misaligned address
+  static inline uint32_t read32(const unsigned char* ptr)
+  {
+    uint32_t value;
+    memcpy(&value, ptr, sizeof(value));
+    return value;
   }
 };
